@@ -68,7 +68,7 @@ theorem simple_trap_list (n : Nat) (k : Ctx) :
 theorem sim_exit_trap (n : Nat) (body : Prog) (hsim : simpleTrap body = true) (s : St) (e : Env)
     (hh : s.handlingTrap = false) (ho : s.out = e.out) (hs : s.exit.code = e.status)
     (hv : s.vars = e.vars) :
-    match run n (.trap body) s, sem n {} (.trap body) e with
+    match run n (.trap body) s, sem n { exitTrap := true } (.trap body) e with
     | none, none => True
     | some s2, some (_, e2) => s2.out = e2.out ∧ s2.exit.code = e2.status
     | _, _ => False := by
@@ -86,27 +86,27 @@ theorem sim_exit_trap (n : Nat) (body : Prog) (hsim : simpleTrap body = true) (s
           | none => none
           | some s1 => some { s1 with exit := s.exit, lastExit := s.lastExit, handlingTrap := false } := by
         rw [run]; simp only [hb, hh, Bool.false_eq_true, ↓reduceIte]; rfl
-      have hsem : sem (m+1) {} (.trap body) e =
-          match seqList (fun st => sem m { ({} : Ctx) with inTrap := true, trapSt := e.status, ign := false }
+      have hsem : sem (m+1) { exitTrap := true } (.trap body) e =
+          match seqList (fun st => sem m (actionCtx { exitTrap := true } e.status)
               (.stmt st)) body e with
           | none => none
           | some (.exit, e1) => some (.exit, e1)
           | some (_, e1) => some (.norm, { e1 with status := e.status }) := by
         rw [sem]; simp only [hb, Bool.false_or, Bool.false_eq_true, ↓reduceIte]; rfl
       rw [hrun, hsem]
-      have h0 := simple_trap_list m { ({} : Ctx) with inTrap := true, trapSt := e.status, ign := false }
+      have h0 := simple_trap_list m (actionCtx { exitTrap := true } e.status)
         body hsim { s with handlingTrap := true, lastExit := s.exit } e rfl ho hs hv
       cases hr : foldStmts (fun st => run m (.stmt st)) body
           { s with handlingTrap := true, lastExit := s.exit } with
       | none =>
         rw [hr] at h0
-        cases hq : seqList (fun st => sem m { ({} : Ctx) with inTrap := true, trapSt := e.status, ign := false }
+        cases hq : seqList (fun st => sem m (actionCtx { exitTrap := true } e.status)
             (.stmt st)) body e with
         | none => trivial
         | some r => rw [hq] at h0; exact absurd h0 (by simp [TrapRel])
       | some s1 =>
         rw [hr] at h0
-        cases hq : seqList (fun st => sem m { ({} : Ctx) with inTrap := true, trapSt := e.status, ign := false }
+        cases hq : seqList (fun st => sem m (actionCtx { exitTrap := true } e.status)
             (.stmt st)) body e with
         | none => rw [hq] at h0; exact absurd h0 (by simp [TrapRel])
         | some r =>
@@ -129,7 +129,7 @@ theorem file_tail (fuel : Nat) (s : St) (e1 : Env) (h : EndRel s e1) :
     (match run fuel (.trap ({ s with lastExit := s.exit } : St).callbackExit) { s with lastExit := s.exit } with
      | none => none
      | some s2 => some (s2.out, s2.exit.code)) =
-    (match (match sem fuel {} (.trap e1.trapExit) e1 with
+    (match (match sem fuel { exitTrap := true } (.trap e1.trapExit) e1 with
             | none => none
             | some (_, e2) => some (Flow.norm, e2)) with
      | none => none
@@ -142,12 +142,12 @@ theorem file_tail (fuel : Nat) (s : St) (e1 : Env) (h : EndRel s e1) :
   cases hr : run fuel (.trap s.callbackExit) { s with lastExit := s.exit } with
   | none =>
     rw [hr] at h0
-    cases hq : sem fuel {} (.trap s.callbackExit) e1 with
+    cases hq : sem fuel { exitTrap := true } (.trap s.callbackExit) e1 with
     | none => rfl
     | some r => rw [hq] at h0; exact absurd h0 (by simp)
   | some s2 =>
     rw [hr] at h0
-    cases hq : sem fuel {} (.trap s.callbackExit) e1 with
+    cases hq : sem fuel { exitTrap := true } (.trap s.callbackExit) e1 with
     | none => rw [hq] at h0; exact absurd h0 (by simp)
     | some r =>
       rw [hq] at h0
@@ -163,7 +163,7 @@ theorem run_eq_sem_file (e : Bool) (fuel : Nat) (p : Prog) (hsup : supportedProg
     runFile fuel p = semFile fuel p := by
   unfold runFile semFile subRun
   have hst : Stat { e := e } ({} : Ctx) false :=
-    ⟨rfl, (fun h => by cases h), fun _ _ _ => rfl, (fun h => by cases h), Nat.le_refl _, fun _ => rfl⟩
+    ⟨⟨rfl, rfl⟩, (fun h => by cases h), fun _ _ _ => rfl, (fun h => by cases h), Nat.le_refl _, fun _ => rfl⟩
   have hd : Dyn { e := e } ({} : Ctx) false ({} : St) :=
     ⟨rfl, ⟨(fun h => by cases h), rfl⟩, (fun f b h => by simp [lookupFn] at h), rfl, fun _ => rfl,
       fun _ => rfl, (fun h => by cases h), fun h => absurd rfl h⟩
